@@ -2,8 +2,9 @@
    the specification of Spec/RationalSpec.lean on every line printed by harness/h_rational.cpp. -/
 import Driver.Common
 import GivaroModel.Spec.RationalSpec
--- @driver-mode rational Driver.rationalLine
-namespace Driver
+-- @driver-mode rational Driver.Rational.rationalLine
+namespace Driver.Rational
+open Driver
 open Givaro Givaro.Model.Rational Givaro.Spec.Rational
 
 namespace Rat10
@@ -221,4 +222,4 @@ def rationalLine (line : String) : String :=
             let kind := if !specOk && !modelOk then "BOTH" else if !specOk then "SPEC" else "MODEL"
             s!"DIFF kind={kind} model={showOut cs.mGmp} modelUnit={showOut cs.mUnit} modelMeetsSpec={cs.spec cs.mGmp && cs.spec cs.mUnit} | {line.trimAscii.toString}"
 
-end Driver
+end Driver.Rational
